@@ -1,6 +1,76 @@
-(** C12 — placeholder while the proofs are being written *)
-From Wharf Require Import Base.Prelude Bsdiff.Scan Bsdiff.Patch Bsdiff.Lru Bsdiff.Suffix Exec.C12.
+(** C12 — a bsdiff series applied to the old file yields the new file.
+    Only statements, [exact], and [Print Assumptions]; models in Bsdiff/Scan.v, Patch.v, Lru.v,
+    proofs in Bsdiff/ScanProofs.v, RoundtripProofs.v, LruProofs.v. *)
+From Wharf Require Import Base.Prelude Bsdiff.Scan Bsdiff.ScanProofs Bsdiff.Patch Bsdiff.RoundtripProofs.
 Local Open Scope Z_scope.
 
-Example bsd_example : run_bsd 0 [1;2;3]%N [1;2;4;3]%N = Ok [([0;0]%N, [4;3]%N, 0, false); ctrl_eof].
-Proof. vm_compute. reflexivity. Qed.
+(** For every old and new byte string, every partition setting, every scan block size and
+    every search oracle that answers within range (0 <= pos <= |old|, 0 <= len <= |suffix|; one
+    oracle per block, so the statement does not depend on which worker scans which block or on
+    what the suffix sort produced), the differ (as repaired) returns a series of non-eof
+    controls followed by one eof control - it does not panic and does not run out of fuel -
+    and the patcher applied to old with that series returns exactly new. *)
+Theorem bsdiff_roundtrip :
+  forall (bsz : Z) (search : N -> list byte -> Z * Z) (partitions : Z) (old new : list byte),
+    0 < bsz -> 0 <= partitions ->
+    (forall bi, search_in_range (len old) (search bi)) ->
+    bytes_ok old -> bytes_ok new ->
+    exists cs, bsdiff_do bsz search partitions old new = Ok (cs ++ [ctrl_eof]) /\
+               Forall (fun c => c_eof c = false) cs /\
+               bspatch old (cs ++ [ctrl_eof]) (len new) = Some new.
+Proof. exact bsdiff_roundtrip_lemma. Qed.
+Print Assumptions bsdiff_roundtrip.
+
+(** The code before the two fix: commits satisfies the same statement only under a guard
+    (new empty, or old non-empty and at least as many new bytes as normalised partitions) ... *)
+Theorem bsdiff_roundtrip_unfixed_partial :
+  forall (bsz : Z) (search : N -> list byte -> Z * Z) (partitions : Z) (old new : list byte),
+    0 < bsz -> 0 <= partitions ->
+    (forall bi, search_in_range (len old) (search bi)) ->
+    bytes_ok old -> bytes_ok new ->
+    (new = [] \/ (old <> [] /\ norm_partitions partitions (len old) <= len new)) ->
+    exists cs, bsdiff_do_unfixed bsz search partitions old new = Ok (cs ++ [ctrl_eof]) /\
+               Forall (fun c => c_eof c = false) cs /\
+               bspatch old (cs ++ [ctrl_eof]) (len new) = Some new.
+Proof. exact bsdiff_roundtrip_unfixed_lemma. Qed.
+Print Assumptions bsdiff_roundtrip_unfixed_partial.
+
+(** ... and without the guard it panics: integer divide by zero (old 16 B, new 3 B, partitions 4)
+    and the suffix sorter on an empty old file (old empty, new 3 B).  These two inputs are the
+    first corpus cases of the harness. *)
+Theorem bsdiff_no_panic_refuted :
+  (exists (search : N -> list byte -> Z * Z) (partitions : Z) (old new : list byte),
+      0 <= partitions /\ (forall bi, search_in_range (len old) (search bi)) /\ bytes_ok old /\ bytes_ok new /\
+      bsdiff_do_unfixed 131072 search partitions old new = Panic 3) /\
+  (exists (search : N -> list byte -> Z * Z) (partitions : Z) (old new : list byte),
+      0 <= partitions /\ (forall bi, search_in_range (len old) (search bi)) /\ bytes_ok old /\ bytes_ok new /\
+      bsdiff_do_unfixed 131072 search partitions old new = Panic 4).
+Proof. exact bsdiff_no_panic_refuted_lemma. Qed.
+Print Assumptions bsdiff_no_panic_refuted.
+
+(** Stopping after any number [k] of controls, keeping nothing but the old offset, and
+    continuing from that saved offset in a fresh context gives the same remainder:
+    the two outputs concatenate to the output of the uninterrupted application. *)
+Theorem apply_from_saved_offset :
+  forall (old : list byte) (cs : list ctrl) (k : nat) (out : list byte) (off : Z),
+    apply_series old 0 cs = Some (out, off) ->
+    exists o1 saved o2, resume old k cs = Some (o1, saved, o2) /\ out = o1 ++ o2.
+Proof. exact resume_spec. Qed.
+Print Assumptions apply_from_saved_offset.
+
+(** the same, for one split of the series: prefix to [saved], rest from [saved] *)
+Theorem apply_prefix_then_rest :
+  forall (old : list byte) (cs : list ctrl) (k : nat) (off : Z) (o1 : list byte) (saved : Z) (rest : list ctrl),
+    apply_prefix old off k cs = Some (o1, saved, rest) ->
+    apply_series old off cs = match apply_series old saved rest with
+                              | Some (o2, offf) => Some (o1 ++ o2, offf)
+                              | None => None
+                              end.
+Proof. exact apply_prefix_series. Qed.
+Print Assumptions apply_prefix_then_rest.
+
+(** non-vacuity: the constant oracle is in range, and on a concrete pair the theorem's objects compute *)
+Example bsdiff_roundtrip_example :
+  bsdiff_do 131072 const_search 3 [1;2;3;4;5;6]%N [9;1;2]%N = Ok ([([], [9]%N, 0, false); ([0]%N, [], -1, false); ([], [2]%N, 0, false)] ++ [ctrl_eof]) /\
+  bspatch [1;2;3;4;5;6]%N [([], [9]%N, 0, false); ([0]%N, [], -1, false); ([], [2]%N, 0, false); ctrl_eof] 3 = Some [9;1;2]%N.
+Proof. split; vm_compute; reflexivity. Qed.
